@@ -299,13 +299,13 @@ Proof.
     + exists (mkNote l (inject_Z z) None ks), (mkNote l (inject_Z z) None ks).
       unfold note_denote, hit_row_denote, get_default, hit_out, hit_row, K_KeySounds, K_StartTime, K_Lane, K_EndTime, N_offset, N_column, N_keysounds; simpl. rewrite ?Hl, ?El, ?Eks. split; [reflexivity|]. split; [reflexivity|].
       unfold note_closeb. simpl. rewrite Z.eqb_refl. simpl.
-      rewrite texts_eqb_refl. rewrite andb_true_r. apply lt1_true. apply Qabs_lt1; lra.
+      rewrite ?texts_eqb_refl, ?andb_true_r. apply lt1_true. apply Qabs_lt1; lra.
   - split.
     + unfold rec_okb, note_keys, hit_out, K_KeySounds, K_StartTime, K_Lane, K_EndTime; simpl. rewrite ?Hl, ?Hc, ?Hk. reflexivity.
     + exists (mkNote l (inject_Z (qtrunc q)) None ks), (mkNote l q None ks).
       unfold note_denote, hit_row_denote, get_default, hit_out, hit_row, K_KeySounds, K_StartTime, K_Lane, K_EndTime, N_offset, N_column, N_keysounds; simpl. rewrite ?Hl, ?El, ?Eks. split; [reflexivity|]. split; [reflexivity|].
       unfold note_closeb. simpl. rewrite Z.eqb_refl. simpl.
-      rewrite texts_eqb_refl. rewrite andb_true_r. apply lt1_true.
+      rewrite ?texts_eqb_refl, ?andb_true_r. apply lt1_true.
       pose proof (qtrunc_lt1 q) as Q1. rewrite <- Qabs_opp.
       setoid_replace (- (inject_Z (qtrunc q) - q))%Q with (q - inject_Z (qtrunc q))%Q by ring. exact Q1.
 Qed.
@@ -334,3 +334,91 @@ Proof.
     setoid_replace (- (inject_Z (qtrunc (Qred (qo + ql))) - (qo + ql)))%Q
       with (qo + ql - inject_Z (qtrunc (Qred (qo + ql))))%Q by ring. exact T.
 Qed.
+
+(* ------------------------------------------------------------------ reader, record by record: timing points and
+   scroll velocities are read as the format says (omitted StartTime = 0, Bpm = 120, Multiplier = 1) *)
+Theorem read_bpm_row_denotes (r : row) p : point_denote K_Bpm 120%Q (YMap r) = Some p ->
+  point_row_denote N_bpm [(N_offset, getd K_StartTime (YInt 0) r); (N_bpm, getd K_Bpm (YInt 120) r); (N_metronome, YInt 4)] = Some p.
+Proof.
+  unfold point_denote, point_row_denote, get_default, getd, N_offset, N_bpm, N_metronome. simpl.
+  destruct (assoc K_StartTime r) as [s|]; destruct (assoc K_Bpm r) as [b|]; simpl;
+    repeat match goal with |- context [num ?v] => destruct (num v) end; intro H; try discriminate; exact H.
+Qed.
+Theorem read_sv_row_denotes (r : row) p : point_denote K_Multiplier 1%Q (YMap r) = Some p ->
+  point_row_denote N_multiplier [(N_offset, getd K_StartTime (YInt 0) r); (N_multiplier, getd K_Multiplier (YFloat 1) r)] = Some p.
+Proof.
+  unfold point_denote, point_row_denote, get_default, getd, N_offset, N_multiplier. simpl.
+  destruct (assoc K_StartTime r) as [s|]; destruct (assoc K_Multiplier r) as [b|]; simpl;
+    repeat match goal with |- context [num ?v] => destruct (num v) end; intro H; try discriminate; exact H.
+Qed.
+
+(* ------------------------------------------------------------------ the statements that are FALSE of the faithful model:
+   concrete witnesses (each isolates one defect; InitialScrollVelocity is declared except in the last one) *)
+Definition doc_of (isv : bool) (notes : list ytree) : ytree :=
+  YMap ((if isv then [(K_InitialScrollVelocity, YFloat 1)] else [])
+        ++ [(K_HitObjects, YList notes); (K_TimingPoints, YList []); (K_SliderVelocities, YList [])]).
+Definition wit_omit_keysounds := doc_of true [YMap [(K_StartTime, YInt 10); (K_Lane, YInt 2)]].
+Definition wit_hold_omit_start := doc_of true
+  [YMap [(K_EndTime, YInt 30); (K_Lane, YInt 2); (K_KeySounds, YList [])];
+   YMap [(K_StartTime, YInt 3); (K_EndTime, YInt 30); (K_Lane, YInt 2); (K_KeySounds, YList [])]].
+Definition wit_holds_all_omit_start := doc_of true [YMap [(K_EndTime, YInt 30); (K_Lane, YInt 2); (K_KeySounds, YList [])]].
+Definition wit_all_omit_lane := doc_of true [YMap [(K_StartTime, YInt 5); (K_KeySounds, YList [])]].
+Definition wit_omit_isv := doc_of false [YMap [(K_StartTime, YInt 5); (K_Lane, YInt 1); (K_KeySounds, YList [])]].
+Definition wit_clean := doc_of true
+  [YMap [(K_Lane, YInt 1); (K_KeySounds, YList [])];
+   YMap [(K_StartTime, YInt 3); (K_EndTime, YInt 30); (K_Lane, YInt 7); (K_KeySounds, YList [YStr [97]])]].
+
+Definition read_ok (doc : ytree) : bool := read_specb doc (Live.read doc).
+Definition rw_ok (doc : ytree) : bool := rw_specb doc (Live.read doc >>= Live.write).
+
+Theorem qua_read_omitted_keysounds_refuted :
+  wf_docb wit_omit_keysounds = true /\ read_ok wit_omit_keysounds = false /\ rw_ok wit_omit_keysounds = false.
+Proof. vm_compute. repeat split. Qed.
+Theorem qua_read_hold_omitted_starttime_refuted :
+  wf_docb wit_hold_omit_start = true /\ read_ok wit_hold_omit_start = false /\ rw_ok wit_hold_omit_start = false.
+Proof. vm_compute. repeat split. Qed.
+Theorem qua_read_holds_all_omit_starttime_refuted :
+  wf_docb wit_holds_all_omit_start = true /\ Live.read wit_holds_all_omit_start = None.
+Proof. vm_compute. repeat split. Qed.
+Theorem qua_read_all_omit_lane_refuted :
+  wf_docb wit_all_omit_lane = true /\ Live.read wit_all_omit_lane = None.
+Proof. vm_compute. repeat split. Qed.
+Theorem qua_read_denotes_refuted : ~ (forall doc, wf_docb doc = true -> read_ok doc = true).
+Proof. intro H. specialize (H wit_omit_keysounds eq_refl). vm_compute in H. discriminate. Qed.
+
+(* a chart as the converters produced it on the pinned tree: extra `index` column, NaN keysounds *)
+Definition wit_conv_chart (index nan : bool) : chart :=
+  let ix := if index then [(N_index, YInt 0)] else [] in
+  let ixc := if index then [N_index] else [] in
+  mkChart (mkFrame (ixc ++ [N_column; N_offset; N_keysounds])
+                   [ix ++ [(N_column, YInt 0); (N_offset, YFloat (201 # 2)); (N_keysounds, if nan then YNaN else YList [])]])
+          (mkFrame (ixc ++ [N_keysounds; N_length; N_column; N_offset]) [])
+          (mkFrame (ixc ++ [N_bpm; N_metronome; N_offset]) [ix ++ [(N_bpm, YInt 150); (N_metronome, YFloat 4); (N_offset, YInt 0)]])
+          (mkFrame [N_multiplier; N_offset] [])
+          (map (fun kd => if fst kd =? K_InitialScrollVelocity then YFloat 1 else snd kd) Live.meta_defaults).
+Definition write_ok (c : chart) : bool := write_specb c (Live.write c).
+Theorem qua_write_index_key_refuted :
+  wf_chartb true (wit_conv_chart true false) = true /\ write_ok (wit_conv_chart true false) = false.
+Proof. vm_compute. repeat split. Qed.
+Theorem qua_write_keysounds_nan_refuted :
+  wf_chartb true (wit_conv_chart false true) = true /\ write_ok (wit_conv_chart false true) = false.
+Proof. vm_compute. repeat split. Qed.
+(* the same chart with declared columns only and list keysounds is written correctly, read back, and stable *)
+Theorem qua_write_clean_chart_ok :
+  let c := wit_conv_chart false false in
+  wf_chartb false c = true /\ write_ok c = true /\ wr_specb c (Live.write c >>= Live.read) = true.
+Proof. vm_compute. repeat split. Qed.
+(* InitialScrollVelocity: a document that omits it is read with '' and written with '' in a float field;
+   stated relative to the live default so that it keeps holding (vacuously) once the default is a float *)
+Theorem qua_isv_default_refuted :
+  wf_docb wit_omit_isv = true /\
+  (has_type 2 (match assoc K_InitialScrollVelocity Live.meta_defaults with Some v => v | None => YNull end)
+   || negb (rw_ok wit_omit_isv)) = true.
+Proof. vm_compute. repeat split. Qed.
+(* non-vacuity: a document inside every guard (hit with omitted StartTime, hold, key sound) is read as it denotes,
+   written well-formed, and a second generation is identical *)
+Theorem qua_clean_doc_ok :
+  wf_docb wit_clean = true /\ read_ok wit_clean = true /\ rw_ok wit_clean = true /\
+  (let w1 := Live.read wit_clean >>= Live.write in
+   match w1, w1 >>= Live.read >>= Live.write with Some a, Some b => tree_eqb true a b | _, _ => false end) = true.
+Proof. vm_compute. repeat split. Qed.
